@@ -20,6 +20,9 @@ pub struct Case {
     wire: bool,
     /// sparse threshold: 0 = default (250), 1 = always sparse, 2 = always dense
     backend: u8,
+    /// repair packets per block in the pool (0 = the default K/2+8); when set, the whole pool is
+    /// delivered and the final batch calls carry all of it
+    pool_repair: u32,
 }
 
 fn spec_strategy(kmax: usize, zmax: usize) -> impl Strategy<Value = ObjectSpec> {
@@ -65,7 +68,7 @@ fn strategy(kmax: usize, zmax: usize, hist_max: usize) -> impl Strategy<Value = 
         any::<bool>(),
         0u8..3,
     )
-        .prop_map(|(spec, hist, complete, wire, backend)| Case { spec, hist, complete, wire, backend })
+        .prop_map(|(spec, hist, complete, wire, backend)| Case { spec, hist, complete, wire, backend, pool_repair: 0 })
 }
 
 fn threshold(backend: u8) -> Option<u32> {
@@ -82,7 +85,7 @@ fn check(c: &Case, st: &mut Stats) -> Result<(), String> {
     let data = spec.data();
     let cfg = spec.cfg();
     let enc = Encoder::new(&data, cfg);
-    let pool = build_pool(&enc, spec.seed, |k| (k as usize / 2 + 8).min(60));
+    let pool = build_pool(&enc, spec.seed, |k| if c.pool_repair > 0 { c.pool_repair as usize } else { (k as usize / 2 + 8).min(60) });
     let layout = rf::object_layout(&data, t, spec.z, spec.n, spec.al);
     let mut dec = Decoder::new(cfg);
     if let Some(th) = threshold(c.backend) {
@@ -112,6 +115,12 @@ fn check(c: &Case, st: &mut Stats) -> Result<(), String> {
         let delivered: HashSet<usize> = seq.iter().copied().collect();
         let mut rest: Vec<usize> = pool.source_idx.iter().flatten().copied().filter(|i| !delivered.contains(i)).collect();
         rng.shuffle(&mut rest);
+        if c.pool_repair > 0 {
+            let src: HashSet<usize> = pool.source_idx.iter().flatten().copied().collect();
+            let mut reps: Vec<usize> = (0..pool.packets.len()).filter(|i| !src.contains(i) && !delivered.contains(i)).collect();
+            rng.shuffle(&mut reps);
+            seq.extend(reps);
+        }
         seq.extend(rest);
     }
     let mut got: Vec<HashSet<u32>> = vec![HashSet::new(); z];
@@ -144,7 +153,10 @@ fn check(c: &Case, st: &mut Stats) -> Result<(), String> {
         {
             let want_block: Vec<u8> = layout[sbn].iter().flat_map(|_| std::iter::empty::<u8>()).collect::<Vec<u8>>();
             let _ = want_block;
-            match block_decs[sbn].decode(std::iter::once(pkt.clone())) {
+            // (a block decoder re-solves on every call; with a huge pool it is only fed until it
+            // has answered - the final batch calls carry the whole pool)
+            let skip = c.pool_repair > 0 && block_done[sbn];
+            match if skip { None } else { block_decs[sbn].decode(std::iter::once(pkt.clone())) } {
                 Some(bytes) => {
                     // block bytes = zero-padded object slice of that block
                     let start: usize = pool.ks[..sbn].iter().map(|&kk| kk as usize * t).sum();
@@ -158,6 +170,7 @@ fn check(c: &Case, st: &mut Stats) -> Result<(), String> {
                     }
                     block_done[sbn] = true;
                 }
+                None if skip => {}
                 None => {
                     if block_done[sbn] {
                         return Err(format!("block decoder {sbn} went back to 'not yet' after having answered (step {step})"));
@@ -211,6 +224,7 @@ fn check(c: &Case, st: &mut Stats) -> Result<(), String> {
             }
         }
     }
+    let mut batch_solver = false;
     // the distinct packets of every block once more, in ONE call to a fresh block decoder
     // (a batch can enter code paths that one-per-call delivery answers before reaching)
     for sbn in 0..z {
@@ -226,6 +240,27 @@ fn check(c: &Case, st: &mut Stats) -> Result<(), String> {
             continue;
         }
         let n_batch = batch.len();
+        let start: usize = pool.ks[..sbn].iter().map(|&kk| kk as usize * t).sum();
+        let mut want: Vec<u8> = data[start.min(f)..(start + k as usize * t).min(f)].to_vec();
+        want.resize(k as usize * t, 0);
+        // the same batch without its first source packet: if all source packets are present the
+        // full batch is answered without the solver, this one is not
+        if let Some(pos) = batch.iter().position(|p| p.payload_id().encoding_symbol_id() < k) {
+            if n_batch > k as usize {
+                let mut b2 = batch.clone();
+                b2.remove(pos);
+                let mut d2 = SourceBlockDecoder::new(sbn as u8, &cfg, k as u64 * t as u64);
+                if let Some(th) = threshold(c.backend) {
+                    d2.verif_set_sparse_threshold(th);
+                }
+                if let Some(bytes) = d2.decode(b2) {
+                    if bytes != want {
+                        return Err(format!("block decoder {sbn} returned wrong bytes for a batch of {} distinct packets (K={k}, one source packet withheld)", n_batch - 1));
+                    }
+                    batch_solver = true;
+                }
+            }
+        }
         let mut d = SourceBlockDecoder::new(sbn as u8, &cfg, k as u64 * t as u64);
         if let Some(th) = threshold(c.backend) {
             d.verif_set_sparse_threshold(th);
@@ -247,6 +282,8 @@ fn check(c: &Case, st: &mut Stats) -> Result<(), String> {
     st.class_if(spec.z > 1, "Z>1");
     st.class_if(spec.z > 128, "Z>128");
     st.class_if(spec.kt > 65535, "Kt >= 2^16");
+    st.class_if(t > 4096, "T > 4096");
+    st.class_if(spec.n > 255, "N > 255");
     st.class_if(spec.n > 1, "N>1");
     st.class_if(none_at_k, "None at >= K symbols");
     st.class_if(dup, "duplicates present");
@@ -255,6 +292,8 @@ fn check(c: &Case, st: &mut Stats) -> Result<(), String> {
     st.class_if(answered, "object returned");
     st.class_if(c.wire, "through serialize/deserialize");
     st.class_if(solver_blocks > 0, "a block completed through the solver");
+    st.class_if(batch_solver, "a batch call answered through the solver");
+    st.class_if(c.pool_repair > 65000, "pool with more than 65000 repair packets per block");
     st.class_if(f < t, "F<T");
     st.evals(seq.len() as u64);
     if solver_blocks > 0 {
@@ -265,7 +304,7 @@ fn check(c: &Case, st: &mut Stats) -> Result<(), String> {
 }
 
 fn to_json(c: &Case) -> Value {
-    json!({"spec": c.spec.to_json(), "hist": c.hist, "complete": c.complete, "wire": c.wire, "backend": c.backend})
+    json!({"spec": c.spec.to_json(), "hist": c.hist, "complete": c.complete, "wire": c.wire, "backend": c.backend, "pool_repair": c.pool_repair})
 }
 
 fn from_json(v: &Value) -> Case {
@@ -275,6 +314,7 @@ fn from_json(v: &Value) -> Case {
         complete: v["complete"].as_bool().unwrap(),
         wire: v["wire"].as_bool().unwrap(),
         backend: v["backend"].as_u64().unwrap() as u8,
+        pool_repair: v.get("pool_repair").and_then(|x| x.as_u64()).unwrap_or(0) as u32,
     }
 }
 
@@ -294,13 +334,17 @@ fn signature(_: &Case, msg: &str) -> String {
 }
 
 pub fn run(ctx: &Ctx, rep: &mut Report) {
-    rep.rule = "generated object (Al in {1,2,4,8}, T multiple of Al up to 192 weighted to 1/Al/63,64,65 strides, Z <= 6, N <= 5, K per block <= 64 (quick), F with F mod T uniform incl. F < T and F = 1, data in {random, zero, 0xFF, one-hot, position-coded}) and a delivery history: a generated list of indices (with repetition) into the pool of the encoder's source packets plus repair packets with near/uniform/far ESIs, in half the cases completed with every missing source packet; optional serialize/deserialize; decoder back-end default/sparse/dense. A separate group has many blocks (Z in 7..=255 weighted to 126..130 and 250..255, 1..4 symbols per block, histories up to 3000 deliveries). A further group has objects of more than 2^16 symbols in total (Kt 40 000..100 000 weighted to 65 300..68 000, Z 150..=255, T <= 4), always completed. Thorough adds K around the dense/sparse switch (241..260), K in 1000..1100 and K >= 10000. Oracle: after every Decoder::decode call, and after every add_new_packet + get_result on a second decoder, the answer is None or exactly the object (length F); Some once all source packets were delivered; never back to None; the same history through per-block decoders (fed beyond their first answer) gives None or the zero-padded block, and so does one batch call with the block's distinct packets. Non-trivial = at least one block completed through the solver (>= K distinct symbols with a source symbol missing); distinct by (object, history).".into();
+    rep.rule = "generated object (Al in {1,2,4,8}, T multiple of Al up to 192 weighted to 1/Al/63,64,65 strides, Z <= 6, N <= 5, K per block <= 64 (quick), F with F mod T uniform incl. F < T and F = 1, data in {random, zero, 0xFF, one-hot, position-coded}) and a delivery history: a generated list of indices (with repetition) into the pool of the encoder's source packets plus repair packets with near/uniform/far ESIs, in half the cases completed with every missing source packet; optional serialize/deserialize; decoder back-end default/sparse/dense. A separate group has many blocks (Z in 7..=255 weighted to 126..130 and 250..255, 1..4 symbols per block, histories up to 3000 deliveries). A group of wide symbols has Al in {1,2,4,5,8,32,128,255}, T up to 65535 and N up to T/Al (weighted across 255/256/257) on objects of at most 12 symbols. A group 'hugepool' has one block of at most 12 symbols and 65 500..66 500 repair packets, all delivered, so that the final batch calls carry more than 2^16 distinct symbols. A further group has objects of more than 2^16 symbols in total (Kt 40 000..100 000 weighted to 65 300..68 000, Z 150..=255, T <= 4), always completed. Thorough adds K around the dense/sparse switch (241..260), K in 1000..1100 and K >= 10000. Oracle: after every Decoder::decode call, and after every add_new_packet + get_result on a second decoder, the answer is None or exactly the object (length F); Some once all source packets were delivered; never back to None; the same history through per-block decoders (fed beyond their first answer) gives None or the zero-padded block, and so does one batch call with the block's distinct packets, and another one with the first source packet withheld (which forces the solver when all source packets were delivered). Non-trivial = at least one block completed through the solver (>= K distinct symbols with a source symbol missing); distinct by (object, history).".into();
     let n = ctx.tier.pick(50_000u64, 400_000);
     rep.absorb("small", run_sharded("C01", "small", ctx.seed, n, 32, || strategy(64, 6, 400), check, to_json, signature));
     let n = ctx.tier.pick(1_500u64, 8_000);
     rep.absorb("switch", run_sharded("C01", "switch", ctx.seed, n, 32, || strategy_range(241, 262, 2, 700), check, to_json, signature));
     let n = ctx.tier.pick(1_200u64, 12_000);
     rep.absorb("manyblocks", run_sharded("C01", "manyblocks", ctx.seed, n, 32, strategy_manyblocks, check, to_json, signature));
+    let n = ctx.tier.pick(600u64, 12_000);
+    rep.absorb("widesymbols", run_sharded("C01", "widesymbols", ctx.seed, n, 32, strategy_widesymbols, check, to_json, signature));
+    let n = ctx.tier.pick(16u64, 200);
+    rep.absorb("hugepool", run_sharded("C01", "hugepool", ctx.seed, n, 16, strategy_hugepool, check, to_json, signature));
     let n = ctx.tier.pick(16u64, 300);
     rep.absorb("largeobject", run_sharded("C01", "largeobject", ctx.seed, n, 16, strategy_largeobject, check, to_json, signature));
     if ctx.tier == Tier::Thorough {
@@ -326,8 +370,54 @@ fn strategy_manyblocks() -> impl Strategy<Value = Case> {
             let t = al * tu;
             let kt = z + ((rr >> 16) % (3 * z as u64 + 1)) as usize;
             let spec = ObjectSpec { al, tu, z, n: 1 + (rr % tu.min(3) as u64) as usize, kt, r: 1 + ((rr >> 8) % t as u64) as usize, class: rr % 5, seed };
-            Case { spec, hist, complete, wire, backend }
+            Case { spec, hist, complete, wire, backend, pool_repair: 0 }
         })
+}
+
+/// Wide symbols: T up to 65535, N across 255/256/257 and up to T/Al, Al up to 255; few symbols.
+fn strategy_widesymbols() -> impl Strategy<Value = Case> {
+    (
+        prop_oneof![Just(1usize), Just(2), Just(4), Just(8), Just(32), Just(128), Just(255), Just(5)],
+        any::<u64>(),
+        any::<u64>(),
+        1usize..=12,
+        1usize..=3,
+        any::<u64>(),
+        any::<u64>(),
+        proptest::collection::vec(any::<u16>(), 0..80),
+        any::<bool>(),
+        any::<bool>(),
+        0u8..3,
+    )
+        .prop_map(|(al, rt, rn, kt, z, rr, seed, hist, complete, wire, backend)| {
+            let tu_max = 65535 / al;
+            let tu = match rt % 6 {
+                0 => tu_max,
+                1 => [255usize, 256, 257, 512, 1024, 4097][(rt >> 8) as usize % 6].min(tu_max),
+                2 => 1 + ((rt >> 8) % 40) as usize,
+                _ => 1 + ((rt >> 8) % tu_max as u64) as usize,
+            }
+            .clamp(1, tu_max);
+            let n = match rn % 5 {
+                0 => 1,
+                1 => tu,
+                2 => [255usize, 256, 257, 300][(rn >> 8) as usize % 4].min(tu),
+                _ => 1 + ((rn >> 8) % tu as u64) as usize,
+            };
+            let t = tu * al;
+            let spec = ObjectSpec { al, tu, z: z.min(kt), n, kt, r: 1 + ((rr >> 8) % t as u64) as usize, class: rr % 5, seed };
+            Case { spec, hist, complete, wire, backend, pool_repair: 0 }
+        })
+}
+
+/// A single small block with a pool of more than 2^16 repair packets, all delivered: the final
+/// batch calls hand more than 2^16 distinct symbols to one block decoder.
+fn strategy_hugepool() -> impl Strategy<Value = Case> {
+    (1usize..=12, prop_oneof![Just((1usize, 1usize)), Just((1, 2)), Just((2, 1))], any::<u64>(), any::<u64>(), 65_500u32..=66_500, 0u8..3).prop_map(|(kt, (al, tu), rr, seed, pool_repair, backend)| {
+        let t = al * tu;
+        let spec = ObjectSpec { al, tu, z: 1, n: 1, kt, r: 1 + ((rr >> 8) % t as u64) as usize, class: rr % 5, seed };
+        Case { spec, hist: vec![], complete: true, wire: false, backend, pool_repair }
+    })
 }
 
 /// Objects of more than 2^16 symbols in total (Z near 255, a few hundred symbols per block):
@@ -347,7 +437,7 @@ fn strategy_largeobject() -> impl Strategy<Value = Case> {
         .prop_map(|(kt, z, (al, tu), rr, seed, hist, wire, backend)| {
             let t = al * tu;
             let spec = ObjectSpec { al, tu, z, n: 1 + (rr % tu as u64) as usize, kt, r: 1 + ((rr >> 8) % t as u64) as usize, class: rr % 5, seed };
-            Case { spec, hist, complete: true, wire, backend }
+            Case { spec, hist, complete: true, wire, backend, pool_repair: 0 }
         })
 }
 
@@ -366,7 +456,7 @@ fn strategy_range(klo: usize, khi: usize, zmax: usize, hist_max: usize) -> impl 
         .prop_map(|(k, z, (al, tu), rr, seed, hist, complete, backend)| {
             let t = al * tu;
             let spec = ObjectSpec { al, tu, z, n: 1 + (rr % tu.min(3) as u64) as usize, kt: k * z - (rr % z as u64) as usize, r: 1 + ((rr >> 8) % t as u64) as usize, class: rr % 5, seed };
-            Case { spec, hist, complete, wire: false, backend }
+            Case { spec, hist, complete, wire: false, backend, pool_repair: 0 }
         })
 }
 
@@ -374,7 +464,7 @@ fn strategy_big() -> impl Strategy<Value = Case> {
     (10_000usize..=14_000, prop_oneof![Just(1usize), Just(4usize), Just(8usize)], any::<u64>(), proptest::collection::vec(any::<u16>(), 14_000..16_000), any::<bool>())
         .prop_map(|(k, t, seed, hist, complete)| {
             let spec = ObjectSpec { al: 1, tu: t, z: 1, n: 1, kt: k, r: 1 + (seed % t as u64) as usize, class: 0, seed };
-            Case { spec, hist, complete, wire: false, backend: 0 }
+            Case { spec, hist, complete, wire: false, backend: 0, pool_repair: 0 }
         })
 }
 
@@ -401,6 +491,6 @@ pub fn fuzz_one(data: &[u8]) -> Result<(), String> {
     while !u.is_empty() && hist.len() < 220 {
         hist.push(u.arbitrary::<u16>().unwrap_or(0));
     }
-    let c = Case { spec, hist, complete, wire, backend };
+    let c = Case { spec, hist, complete, wire, backend, pool_repair: 0 };
     check(&c, &mut Stats::new()).map_err(|m| format!("{m} | case {}", to_json(&c)))
 }
